@@ -100,9 +100,17 @@ func getConstraints(schema *openapi3.Schema) []ast.TypeConstraint {
 		if schema.ExclusiveMin {
 			op = ast.GreaterThanOp
 		}
+
+		// the integers above 0.5 – inclusive or not – are those from 1
+		bound := *schema.Min
+		if schema.Type.Is(openapi3.TypeInteger) && bound != math.Trunc(bound) {
+			bound = math.Ceil(bound)
+			op = ast.GreaterThanEqualOp
+		}
+
 		constraints = append(constraints, ast.TypeConstraint{
 			Op:   op,
-			Args: getArgs(schema.Min, schema.Type.Slice()[0]),
+			Args: getArgs(&bound, schema.Type.Slice()[0]),
 		})
 	}
 
@@ -111,9 +119,17 @@ func getConstraints(schema *openapi3.Schema) []ast.TypeConstraint {
 		if schema.ExclusiveMax {
 			op = ast.LessThanOp
 		}
+
+		// the integers below -0.5 – inclusive or not – are those up to -1
+		bound := *schema.Max
+		if schema.Type.Is(openapi3.TypeInteger) && bound != math.Trunc(bound) {
+			bound = math.Floor(bound)
+			op = ast.LessThanEqualOp
+		}
+
 		constraints = append(constraints, ast.TypeConstraint{
 			Op:   op,
-			Args: getArgs(schema.Max, schema.Type.Slice()[0]),
+			Args: getArgs(&bound, schema.Type.Slice()[0]),
 		})
 	}
 
